@@ -6,9 +6,11 @@ import (
 	"flag"
 	"fmt"
 	"os"
+	"path/filepath"
 	"runtime/debug"
 	"sort"
 	"strconv"
+	"strings"
 )
 
 type propCheck struct {
@@ -27,7 +29,10 @@ func main() {
 	repo := flag.String("repo", envOr("ATLAS_REPO", "/repo"), "path of the atlas working tree")
 	verif := flag.String("verif", envOr("VERIF_DIR", "/verif"), "path of /verif")
 	list := flag.Bool("list", false, "list properties")
+	overlayDir := flag.String("overlay-dir", "", "directory mirroring repo-relative paths whose files replace the working-tree files (self-validation)")
+	outDir := flag.String("out", "", "write evidence/replay files under this directory instead of <verif>/evidence (self-validation children)")
 	flag.Parse()
+	childOverlayDir, childOutDir = *overlayDir, *outDir
 	if *list {
 		var ids []string
 		for id := range props {
@@ -51,8 +56,28 @@ func main() {
 	os.Exit(runProp(*prop, *tier, seed, *repo, *verif, p))
 }
 
+var childOverlayDir, childOutDir string
+
 func runProp(id, tier string, seed int, repo, verif string, p *propCheck) (code int) {
-	c, err := Load(repo, nil)
+	var overlay map[string][]byte
+	if childOverlayDir != "" {
+		overlay = map[string][]byte{}
+		filepath.Walk(childOverlayDir, func(path string, info os.FileInfo, err error) error {
+			if err != nil || info.IsDir() || !strings.HasSuffix(path, ".go") {
+				return nil
+			}
+			rel, _ := filepath.Rel(childOverlayDir, path)
+			if strings.HasPrefix(rel, "out"+string(filepath.Separator)) {
+				return nil
+			}
+			b, err := os.ReadFile(path)
+			if err == nil {
+				overlay[filepath.Join(repo, rel)] = b
+			}
+			return nil
+		})
+	}
+	c, err := Load(repo, overlay)
 	if err != nil {
 		// A tree that cannot be loaded is a failed check, never a pass.
 		c = &Ctx{Repo: repo, byPath: map[string]*packagesPkg{}, ruleIx: map[string]*RuleInfo{}, funcs: map[string]bool{}}
@@ -74,7 +99,14 @@ func runProp(id, tier string, seed int, repo, verif string, p *propCheck) (code 
 		}()
 		p.run(c)
 	}()
-	return c.Finish(verif, p.explanation, p.undecided, nil)
+	var extra map[string]any
+	if tier == "thorough" && childOverlayDir == "" {
+		extra = map[string]any{"self_validation": selfValidate(c, id, verif)}
+	}
+	if childOutDir != "" {
+		c.outDir = childOutDir
+	}
+	return c.Finish(verif, p.explanation, p.undecided, extra)
 }
 
 func envOr(k, d string) string {
